@@ -934,7 +934,11 @@ def check_ast(a: ast.AST):
 
     class ConstantTypeChecker(ast.NodeVisitor):
         def visit_Constant(self, node: ast.Constant):
-            if not isinstance(node.value, g_legal_capture_types):
+            # Exactly one of the legal types: an instance of a subclass (an `IntEnum` member, a
+            # numpy scalar) has no literal form that can be sent. Modules of any kind go by name.
+            if type(node.value) not in g_legal_capture_types and not isinstance(
+                node.value, ModuleType
+            ):
                 raise ValueError(f"Invalid constant type: {type(node.value)} for {ast.dump(node)}")
             self.generic_visit(node)
 
